@@ -28,6 +28,10 @@ const RSA4: [&[u8]; 3] = [fx!("rsa4096-1.pk8.der"), fx!("rsa4096-2.pk8.der"), fx
 /// public half (PKCS#1 RSAPublicKey and SubjectPublicKeyInfo, made by openssl) of an 8192-bit RSA key
 pub const RSA8192_PKCS1: &[u8] = fx!("rsa8192-1.pkcs1.der");
 pub const RSA8192_SPKI: &[u8] = fx!("rsa8192-1.spki.der");
+/// public halves only (PKCS#1, SubjectPublicKeyInfo): the largest supported size, and a size (2368 bits) whose
+/// SubjectPublicKeyInfo fills the last line of its PEM armour exactly
+pub const RSA_PUBLIC_ONLY: [(&[u8], &[u8]); 2] =
+    [(RSA8192_PKCS1, RSA8192_SPKI), (fx!("rsa2368-1.pkcs1.der"), fx!("rsa2368-1.spki.der"))];
 
 pub const FAMILIES: [&str; 6] =
     ["ed25519", "ecdsa", "rsa2048-256", "rsa2048-512", "rsa4096-256", "rsa4096-512"];
